@@ -486,6 +486,9 @@ class CallMixin:
         params = [p.arg for p in fnode.args.args]
         args = []
         for p in params:
+            if p not in argmap and p in self.ghost_defaults:
+                args.append(self.lookup(p, s))
+                continue
             if p not in argmap:
                 raise Unsupported(f"contract clause {fn.__name__} names unknown parameter {p!r}")
             args.append(argmap[p])
@@ -560,6 +563,8 @@ class CallMixin:
                                                 z3.ArraySort(self.reg.sort(self.reg.ty_of_class(cls)), self.reg.sort(fty)))
         for g in c.modifies_ghost:
             old = s.ghost.get(g)
+            if old is None and g in self.ghost_defaults:
+                old = self.ghost_defaults[g](self)
             if old is not None and isinstance(old, Val) and not old.is_py:
                 s.ghost[g] = self.fresh(old.ty, "ghost_" + g)
         outs = []
